@@ -698,7 +698,10 @@ namespace ip {
 	// operation since we last drained, wake up the reader
 	void tcp::socket::maybe_wakeup_reader()
 	{
-		if (m_incoming_queue.size() != 1 || (!m_recv_handler && !m_wait_recv_handler)) return;
+		// a read can only be pending if the queue was empty before this delivery.
+		// The delivery may have appended more than one packet though (when the
+		// reorder buffer releases segments), so don't insist on exactly one
+		if (m_incoming_queue.empty() || (!m_recv_handler && !m_wait_recv_handler)) return;
 
 		if (m_recv_null_buffers)
 		{
